@@ -95,7 +95,7 @@ def check_spec(specname, N, fixed=None, qtimeout_ms=30000, use_pre=True, want_mo
         res['detail'] = 'definition takes %d parameters, the C kernel %d' % (len(params), len(sp.args))
         return res
     try:
-        ctx = Ctx(specname, unwind=N * N + N + 6, check_timeout_ms=qtimeout_ms)
+        ctx = Ctx(specname, unwind=N * N * N + N + 6, check_timeout_ms=qtimeout_ms)
     except Unsupported as e:
         res['status'] = 'unsupported'; res['detail'] = str(e); return res
     args = kharness.setup_from_spec(ctx, sp, values=fixed)
